@@ -779,8 +779,8 @@ def run(ck):
     ck.level = "other"
     ck.cov["explanation"] = (
         "Exploration with a proved oracle plus an executable Lean model of the C matcher.  The model of usual_regexec "
-        "(CM.cExec) is compared with the C code on the whole pmatch array of every execution and is proved leftmost-longest "
-        "on parenthesis-free op lists.  Kernel-checked Lean theorems establish that the reference used as oracle is "
+        "(CM.cExec) is compared with the C code on the whole pmatch array of every execution and is proved equal to the "
+        "reference (rc and pmatch[0]) on every pattern without a repeated group.  Kernel-checked Lean theorems establish that the reference used as oracle is "
         "right: `ends` is sound and complete for the declarative POSIX semantics `Matches` (anchors/flags in context), "
         "`llmatch` is exactly the leftmost-longest overall match (and `none` iff no substring matches), and the parser "
         "models invert the ERE/BRE renderers on the bracket-free fragments.  The C matcher is not proved: regcomp rc/"
@@ -967,9 +967,10 @@ def run(ck):
     ck.cov["partial"] = [
         "the C matcher's algorithm is transcribed in Lean (lean/Usual/C04/CMatch.lean: scan_next/match_group/match_gend with minok, "
         "got_full_match/gm_resolve_tie/cmp_gmatches/gmatch_hist_cmp/fill_history/publish_gm) and compared with the C code on the "
-        "whole pmatch array of every execution (internal projection); cmatch_refines_llmatch is proved only as "
-        "cmatch_ops_leftmost_longest_partial: parenthesis-free op lists, against the declarative reading OpsMatch of the op "
-        "lists (rc, leftmost start, longest last_endpos); missing: OpsMatch<->Matches link, pm[0] through publish_gm, groups",
+        "whole pmatch array of every execution (internal projection); cmatch_refines_llmatch is proved as "
+        "cmatch_refines_llmatch_partial for every pattern without a repeated group (atoms with counts, anchors, alternation, "
+        "plain groups nested arbitrarily, any nmatch): rc and pmatch[0] of the model = llmatch; missing: repetition of groups "
+        "(match_gend re-entry, minok, zero-length pruning, the mincnt = 0 branch)",
         "sub-match offsets: pmatchOk_spec / submatch_clause_satisfiable are proved about the reference (the clause is "
         "satisfiable exactly when a match exists); the values C reports are monitored with pmatchOk, compared with the "
         "matcher model and with the AT&T table, not proved",
